@@ -187,7 +187,7 @@ def mixed_script(rng, prog):
     return ops, ref
 
 
-SNAP_BAD = ('TEXT-CHANGED', 'INSNS-REPLACED', 'VARS-CHANGED', 'ORIGINAL-INSNS-LEFT', 'LREF-ORIG-LEFT', 'ADDR-CHANGED',
+SNAP_BAD = ('LREF-TEXT-CHANGED', 'LREF-LABEL-NULL', 'TEXT-CHANGED', 'INSNS-REPLACED', 'VARS-CHANGED', 'ORIGINAL-INSNS-LEFT', 'LREF-ORIG-LEFT', 'ADDR-CHANGED',
             'MC-CHANGED', 'NO-CALL-ADDR', 'GEN-RETURNED-OTHER-ADDR', 'INTERP-STATE-LOST', 'CRASH', 'ERROR', 'NOFUNC', 'BADOP')
 
 
@@ -323,7 +323,7 @@ def run(chk):
         'model boundary (stated in Properties_C16.v, checked only by running): the generator edits nothing but the '
         'working list func->insns, registers it creates, and the current label fields of lrefs']
     found = 0
-    rng = chk.rng('c16')
+    std_rng = rng = chk.rng('c16')
     nprog = 90 if quick else 400
     nproto = 10 if quick else 30
     ne2e = 3 if quick else 6
@@ -346,16 +346,36 @@ def run(chk):
                 break
         if found >= 2:
             break
-    for k in range(nprog):
-        # two programs in three have no lref data: their functions may be interpreted and generated in any order;
-        # one in three has no label addresses at all: results are compared with the reference at -O2/-O3 too
-        prog = G.gen_program(rng, feats=FEATS - {'lref', 'laddr'} if k % 3 == 2 else (FEATS - {'lref'} if k % 3 == 1 else FEATS))
+    # The lref family first (own random stream): functions owning lref data items of every form (one label, two labels,
+    # displacement) whose labels stand in reachable and in UNREACHABLE code, with and without a reachable jmpi in the
+    # function (remove_unreachable_bbs clears the working labels of such lrefs at -O1 and higher; the restore must bring
+    # them back), and a few programs with LARGE functions (thousands of insns: duplicate / restore of long lists,
+    # hundreds of generator-made registers).  Then the ordinary programs.
+    lrng = chk.rng('c16lref')
+    nlref = 30 if quick else 150
+    nbig = 2 if quick else 10
+    sources = [('lref', j) for j in range(nlref)] + [('big', j) for j in range(nbig)] + [('std', j) for j in range(nprog)]
+    for kind, k in sources:
+        if kind == 'lref':
+            rng = lrng
+            prog = G.gen_program(lrng, feats=FEATS - {'lref', 'laddr'} if k % 3 == 0 else FEATS, lrefam=True)
+            for sh in prog['lref_shapes']:
+                chk.dist('lref_family_shapes', sh)
+        elif kind == 'big':
+            rng = lrng
+            prog = G.gen_big_program(lrng, scale=0.5)
+        else:
+            rng = std_rng
+            # two programs in three have no lref data: their functions may be interpreted and generated in any order;
+            # one in three has no label addresses at all: results are compared with the reference at -O2/-O3 too
+            prog = G.gen_program(rng, feats=FEATS - {'lref', 'laddr'} if k % 3 == 2 else (FEATS - {'lref'} if k % 3 == 1 else FEATS))
+        chk.dist('program_family', kind)
         path = write_prog(prog['text'], 'p')
         chk.dist('free_mix_program', not any(f['lref'] for f in prog['funcs']))
         for ft in prog['features']:
             chk.dist('prog_features', ft)
         # protocol tie on random functions of the program
-        for _ in range(nproto):
+        for _ in range(nproto if kind == 'std' else (4 if kind == 'lref' else 1)):
             f = rng.choice(prog['funcs'])
             seed = rng.getrandbits(31)
             ned = rng.choice([0, 1, 3, 8, 20, 40])
@@ -368,7 +388,7 @@ def run(chk):
             chk.dist('proto_lref_func', 'lref' if f['lref'] else 'plain')
             chk.dist('proto_interpreted_first', interp)
             why, d = check_protocol(impl, model, path, f['name'], seed, ned, interp)
-            if d and k == 0:
+            if d and k == 0 and kind == 'std':
                 chk.sample('P %s seed=%d edits=%d script=%s' % (f['name'], seed, ned, d.get('script', '')[:200]))
             if why:
                 found += 1
@@ -383,7 +403,7 @@ def run(chk):
                             dict(kind='proto', text=prog['text'], func=f['name'], seed=seed, nedits=small, interp=interp, what=why),
                             'duplicate/edit/restore: %s  [function %s, seed %d, %d edits]' % (why[:300], f['name'], seed, small))
                 break
-        if k == 0:
+        if k == 0 and kind == 'std':
             # recorded limitation (KNOWN_FINDINGS c16:gen-after-lazybb): basic-block generation never restores the
             # function's insns, so whole-function generation (or output / interpretation) after the function ran
             # under the lazy-BB interface fails.  Witness history, reported under that signature only.
@@ -402,7 +422,7 @@ def run(chk):
             for o in ops:
                 chk.dist('e2e_ops', ' '.join(o.split()[:2]) if o.split()[0] in ('link', 'opt') else o.split()[0])
             if k == 0:
-                chk.sample('G | ' + ' ; '.join(ops)[:300])
+                chk.sample('G(%s) | ' % kind + ' ; '.join(ops)[:300])
             if e2e_case(chk, impl, prog, path, ops, ref):
                 found += 1
                 break
